@@ -42,7 +42,7 @@ class Ref:
 
     def __init__(self, cfg):
         self.cfg = cfg
-        self.delivered = {"P": [], "Q": []}
+        self.delivered = {"P": [], "Q": [], "R": []}
         self.rules = []  # [target, remaining set, action]
 
     def _act(self, rule, label):
@@ -66,11 +66,13 @@ class Ref:
             return
         matched_self = False
         for rule in self.rules:
-            rule[1].discard(label)
-            if not rule[1]:
-                self._act(rule, label)
-                if rule[0] == "P":
-                    matched_self = True
+            # a rule fires exactly when its tag set becomes complete, i.e. on the token that removes its last pending tag
+            if label in rule[1]:
+                rule[1].discard(label)
+                if not rule[1]:
+                    self._act(rule, label)
+                    if rule[0] == "P":
+                        matched_self = True
         if not matched_self:
             self.delivered["P"].append(label)
 
@@ -79,9 +81,10 @@ class Ref:
         rule = [target, set(tags), action]
         self.rules.append(rule)
         for label in [x for x in self.delivered["P"] if not x.startswith("TERM")]:
-            rule[1].discard(label)
-            if not rule[1]:
-                self._act(rule, label)
+            if label in rule[1]:
+                rule[1].discard(label)
+                if not rule[1]:
+                    self._act(rule, label)
 
 
 def label_of(tok):
@@ -101,10 +104,14 @@ async def _apply(loop, cfg, hist, res):
     else:
         P = InterWorkflowPort(wf, "P")
     Q = Port(wf, "Q")
-    ports = {"P": P, "Q": Q}
+    # R: a DIFFERENT port object with the SAME name as Q (the same port of another recovery workflow: workflows built
+    # by RollbackFailureManager are clones, so their ports share names)
+    R = Port(FakeWorkflow(), "Q")
+    ports = {"P": P, "Q": Q, "R": R}
     ref = Ref(cfg)
     ncons = cfg["consumers"]
-    names = [("P", f"c{j}") for j in range(ncons)] + ([("Q", "q0")] if kind == "inter" else [])
+    names = [("P", f"c{j}") for j in range(ncons)] + ([("Q", "q0")] if kind == "inter" else []) + (
+        [("R", "r0")] if kind == "inter" and any(r[0] == "R" for r in cfg.get("rules", [])) else [])
     received = {n: [] for n in names}
     pending = {n: None for n in names}
     tokens = [Token(i, tag=f"0.{i}") for i in range(cfg["tokens"])]
@@ -226,6 +233,13 @@ def configs_for(tier):
         [["Q", ["0.1"], "P"], ["P", ["0.1"], "PT"]],
         [["P", ["0.0"], "T"], ["Q", ["0.0"], "P"]],
         [["Q", ["0.0"], "P"], ["Q", ["0.1"], "PT"]],
+        # two waiters of the same kind: same target and action with different tags; same-named ports of two workflows;
+        # the very same rule registered twice (seeded defects C16-1 and C19-1 "de-duplicate" such rules)
+        [["Q", ["0.0"], "P"], ["Q", ["0.1"], "P"]],
+        [["Q", ["0.1"], "P"], ["Q", ["0.0"], "P"]],
+        [["Q", ["0.0"], "P"], ["R", ["0.0"], "P"]],
+        [["Q", ["0.1"], "P"], ["R", ["0.1"], "P"]],
+        [["Q", ["0.0"], "P"], ["Q", ["0.0"], "P"]],
     ]
     for rs in rule_sets:
         cfgs.append({"kind": "inter", "consumers": 1, "tokens": 2, "rules": rs})
@@ -262,7 +276,9 @@ def main(argv=None):
     rep.assumptions = [
         "termination token is put last by the driver (as every step does)",
         "self-targeting boundary rules are installed before the port carries tokens (as _inject_tokens does)",
-        "reference for inter-workflow ports: a rule is complete once each of its tags was seen; every token seen "
+        "reference for inter-workflow ports: a rule fires exactly once, on the token that completes its tag set (the "
+        "property: 'exactly when the boundary tag set is complete'); "
+        "OLD reading, kept for the record: a rule is complete once each of its tags was seen; every token seen "
         "while complete triggers its action on the target; a token handled by a complete self rule is not also "
         "delivered plainly",
     ]
